@@ -8,7 +8,7 @@
    v = VSat the CODE-FAITHFUL model of fss_numpy.py (cumsum table, zero row/column, tl/br meshes, clips);
    fss_of_comps = compute_fss / _aggregate_fss_decomposed tail; fss_single / fss_2d_m / fss_2d_binary_m the
    public functions; rect rows H W = a genuine H x W array. *)
-From V Require Import lib.Tree model.C16 proofs.C16_sat proofs.C16 proofs.C16_score proofs.C16_2d.
+From V Require Import lib.Tree model.C16 proofs.C16_sat proofs.C16 proofs.C16_score proofs.C16_2d gen.Gen_C16_kern proofs.C16_code.
 Open Scope Q_scope.
 
 (* D - B - C + A is the number of events in the h x w window at (i, j): every field, position, window *)
@@ -158,3 +158,34 @@ Example C16_example_value :
   fss_single VSat false (Some OpGt) (XFin (1 # 2)) [[XFin 1; XFin 0]; [XNaN; XFin 1]] [[XFin 1; XFin 1]; [XFin 0; XFin 0]] 1 2
   = fss_single VDef false (Some OpGt) (XFin (1 # 2)) [[XFin 1; XFin 0]; [XNaN; XFin 1]] [[XFin 1; XFin 1]; [XFin 0; XFin 0]] 1 2.
 Proof. vm_compute. reflexivity. Qed.
+
+(* ---- the scalar tail (zero denominator, clamping) regenerated from source on every run: backend.compute_fss (translator
+   site C16.single) and the tail of _aggregate_fss_decomposed (site C16.agg, which adds obs + fcst in the other order) ---- *)
+(* both are the model's fss_of_comps, the function every theorem above is stated with *)
+Theorem C16_code_single_tail_is_model : forall f o d : Q,
+  gen_compute_fss (XFin f) (XFin o) (XFin d) =x= XFin (fss_of_comps {| cf := f; co := o; cd := d |}).
+Proof. exact gen_compute_fss_is_model. Qed.
+Print Assumptions C16_code_single_tail_is_model.
+
+Theorem C16_code_aggregate_tail_is_model : forall f o d : Q,
+  gen_aggregate_tail (XFin f) (XFin o) (XFin d) =x= XFin (fss_of_comps {| cf := f; co := o; cd := d |}).
+Proof. exact gen_aggregate_tail_is_model. Qed.
+Print Assumptions C16_code_aggregate_tail_is_model.
+
+(* the single-field entry point and the aggregating entry point finish in the same way *)
+Theorem C16_code_tails_agree : forall f o d : Q,
+  gen_compute_fss (XFin f) (XFin o) (XFin d) =x= gen_aggregate_tail (XFin f) (XFin o) (XFin d).
+Proof. exact single_and_aggregate_tails_agree. Qed.
+Print Assumptions C16_code_tails_agree.
+
+(* the regenerated code is clamped to [0, 1] for all finite components (no hypothesis on their signs) ... *)
+Theorem C16_code_tail_in_unit_interval : forall f o d : Q,
+  exists q, gen_compute_fss (XFin f) (XFin o) (XFin d) =x= XFin q /\ 0 <= q <= 1.
+Proof. exact gen_compute_fss_range. Qed.
+Print Assumptions C16_code_tail_in_unit_interval.
+
+(* ... and is 0 when the denominator is 0 *)
+Theorem C16_code_tail_zero_denominator : forall f o d : Q, f + o == 0 ->
+  gen_compute_fss (XFin f) (XFin o) (XFin d) =x= XFin 0.
+Proof. exact gen_compute_fss_zero_denominator. Qed.
+Print Assumptions C16_code_tail_zero_denominator.
